@@ -16,8 +16,15 @@ Notation dom := nat (only parsing).   (* 0 is "comb" *)
 Record domcfg := { d_clk : nat; d_pos : bool; d_rst : option nat; d_async : bool }.
 Definition domtab := dom -> domcfg.
 
-(* Fragment: statements per domain (a dict: keys unique, insertion order) and subfragments *)
-Inductive frag := Frag (stmts : list (dom * list stmt)) (subs : list frag).
+(* MemoryInstance (hdl/_mem.py): ports with their domain and their addr / data / en values; the data of a read
+   port is an assignment target (a Signal); transparent_for holds write-port indices *)
+Record wport := WP { wp_dom : dom; wp_addr : expr; wp_data : expr; wp_en : expr }.
+Record rport := RP { rp_dom : dom; rp_addr : expr; rp_data : expr; rp_en : expr; rp_transp : list nat }.
+Record meminst := MI { mi_shape : shape; mi_depth : Z; mi_init : list Z; mi_wports : list wport; mi_rports : list rport }.
+
+(* Fragment: statements per domain (a dict: keys unique, insertion order), memory instances and the other
+   subfragments *)
+Inductive frag := Frag (stmts : list (dom * list stmt)) (mems : list meminst) (subs : list frag).
 
 (* Fragment.add_statements: statements.setdefault(domain, []).append(stmt) for every stmt *)
 Fixpoint add_stmts_ne (d : dom) (ss : list stmt) (l : list (dom * list stmt)) : list (dom * list stmt) :=
@@ -112,22 +119,47 @@ Definition enable_entry (ctl : controls) (e : dom * list stmt) : dom * list stmt
   | None => e
   end.
 
+(* EnableInserter.on_fragment on a MemoryInstance:  read port  en := en & ctl ;
+   write port  en := Mux(ctl, en, Const(0, len(en))) = SwitchValue(ctl, ((0, Const 0), (None, en))) *)
+Definition mux_ctl (c en : expr) : expr :=
+  ESwitch c [(Some [repeat (Some false) (Z.to_nat (ewidth c))], EConst 0 (Sh (ewidth en) false)); (None, en)].
+Definition enable_wport (ctl : controls) (p : wport) : wport :=
+  match lookup (wp_dom p) ctl with
+  | Some c => WP (wp_dom p) (wp_addr p) (wp_data p) (mux_ctl c (wp_en p))
+  | None => p
+  end.
+Definition enable_rport (ctl : controls) (p : rport) : rport :=
+  match lookup (rp_dom p) ctl with
+  | Some c => RP (rp_dom p) (rp_addr p) (rp_data p) (EOp2 OAnd (rp_en p) c) (rp_transp p)
+  | None => p
+  end.
+Definition enable_mem (ctl : controls) (m : meminst) : meminst :=
+  MI (mi_shape m) (mi_depth m) (mi_init m) (map (enable_wport ctl) (mi_wports m)) (map (enable_rport ctl) (mi_rports m)).
+
+(* _ControlInserter.on_fragment only touches statements: ResetInserter leaves memory instances alone *)
 Fixpoint reset_inserter (tab : sigtab) (ctl : controls) (f : frag) : frag :=
-  match f with Frag st subs => Frag (map (reset_entry tab ctl) st) (map (reset_inserter tab ctl) subs) end.
+  match f with Frag st ms subs => Frag (map (reset_entry tab ctl) st) ms (map (reset_inserter tab ctl) subs) end.
 Fixpoint enable_inserter (ctl : controls) (f : frag) : frag :=
-  match f with Frag st subs => Frag (map (enable_entry ctl) st) (map (enable_inserter ctl) subs) end.
+  match f with Frag st ms subs =>
+    Frag (map (enable_entry ctl) st) (map (enable_mem ctl) ms) (map (enable_inserter ctl) subs) end.
 
 (* DomainRenamer.map_statements: add_statements(domain_map.get(domain, domain), statements) *)
 Definition rename_dom (rho : list (dom * dom)) (d : dom) : dom :=
   match lookup d rho with Some d' => d' | None => d end.
 Definition rename_entries (rho : list (dom * dom)) (st : list (dom * list stmt)) : list (dom * list stmt) :=
   fold_left (fun acc e => add_stmts (rename_dom rho (fst e)) (snd e) acc) st [].
+(* DomainRenamer.map_memory_ports: port domains in the map are replaced *)
+Definition rename_mem (rho : list (dom * dom)) (m : meminst) : meminst :=
+  MI (mi_shape m) (mi_depth m) (mi_init m)
+     (map (fun p => WP (rename_dom rho (wp_dom p)) (wp_addr p) (wp_data p) (wp_en p)) (mi_wports m))
+     (map (fun p => RP (rename_dom rho (rp_dom p)) (rp_addr p) (rp_data p) (rp_en p) (rp_transp p)) (mi_rports m)).
 Fixpoint domain_renamer (rho : list (dom * dom)) (f : frag) : frag :=
-  match f with Frag st subs => Frag (rename_entries rho st) (map (domain_renamer rho) subs) end.
+  match f with Frag st ms subs =>
+    Frag (rename_entries rho st) (map (rename_mem rho) ms) (map (domain_renamer rho) subs) end.
 
 (* a module hierarchy with wrappers applied at any node (TransformedElaboratable: transforms in list order) *)
 Inductive wrapper := WReset (ctl : controls) | WEnable (ctl : controls) | WRename (rho : list (dom * dom)).
-Inductive ftree := FT (stmts : list (dom * list stmt)) (wr : list wrapper) (subs : list ftree).
+Inductive ftree := FT (stmts : list (dom * list stmt)) (mems : list meminst) (wr : list wrapper) (subs : list ftree).
 
 Definition apply_wrapper (tab : sigtab) (f : frag) (w : wrapper) : frag :=
   match w with
@@ -136,12 +168,14 @@ Definition apply_wrapper (tab : sigtab) (f : frag) (w : wrapper) : frag :=
   | WRename rho => domain_renamer rho f
   end.
 Fixpoint elab (tab : sigtab) (t : ftree) : frag :=
-  match t with FT st wr subs => fold_left (apply_wrapper tab) wr (Frag st (map (elab tab) subs)) end.
+  match t with FT st ms wr subs => fold_left (apply_wrapper tab) wr (Frag st ms (map (elab tab) subs)) end.
 
 (* ---------- processes and the engine ---------- *)
 (* _FragmentCompiler: one process per (fragment, domain), subfragments after *)
 Fixpoint flatten (f : frag) : list (dom * list stmt) :=
-  match f with Frag st subs => st ++ flat_map flatten subs end.
+  match f with Frag st _ subs => st ++ flat_map flatten subs end.
+Fixpoint frag_mems (f : frag) : list meminst :=
+  match f with Frag _ ms subs => ms ++ flat_map frag_mems subs end.
 
 (* edge_waker(process, polarity) registered on clk (and on rst for async domains), called from
    _PySignalState.commit only when curr != next *)
@@ -256,3 +290,177 @@ Definition reset_n (tab : sigtab) (cs : list expr) (ss : list stmt) : list stmt 
   fold_left (fun ss c => ss ++ [ctl_switch c (reset_stmts tab ss)]) cs ss.
 Definition enable_n (cs : list expr) (ss : list stmt) : list stmt :=
   fold_left (fun ss c => [ctl_switch c ss]) cs ss.
+
+(* ---------- SPEC run of the ORIGINAL design with explicit per-domain enable / reset controls ---------- *)
+(* the engine step with an arbitrary delta-2 process function (step_with sp = step_gen of its process function) *)
+Definition step_gen (F : env -> env -> slots -> dom * list stmt -> slots) (D : design) (e : event) (cur : env) : env :=
+  let nx := freeze (g_nsig D) (apply_writes e cur) in
+  settle (fuel_of D) D
+    (freeze (g_nsig D) (s_next (fold_left (F cur nx) (g_procs D) {| s_curr := nx; s_next := nx |}))).
+
+(* a sync process of domain d runs `sync_ctl` with the enable en_of d and the extra reset rs_of d, both
+   sampled on the values committed in delta 1 (what the woken process reads) *)
+Definition ctl_proc (tab : sigtab) (doms : domtab) (en_of rs_of : dom -> env -> bool)
+  (cur nx : env) (st : slots) (p : dom * list stmt) : slots :=
+  if Nat.eqb (fst p) 0 then comb_process tab (snd p) st
+  else if fired (doms (fst p)) cur nx
+       then sync_ctl tab (snd p) (d_rst (doms (fst p))) (en_of (fst p) nx) (rs_of (fst p) nx) st
+       else st.
+Definition step_ctl (en_of rs_of : dom -> env -> bool) (D : design) : event -> env -> env :=
+  step_gen (ctl_proc (g_tab D) (g_doms D) en_of rs_of) D.
+
+(* the control of domain d in a controls dict (dflt when the domain is not named) *)
+Definition ctl_of (ctl : controls) (dflt : bool) (d : dom) (curr : env) : bool :=
+  match lookup d ctl with Some c => ctl_on curr c | None => dflt end.
+
+(* state reached after a sequence of events *)
+Definition state_after (stp : event -> env -> env) (evs : list event) (cur : env) : env :=
+  fold_left (fun c e => stp e c) evs cur.
+
+(* the transformed design: every process rewritten by T (flatten of the inserters is a map, see XfrmP) *)
+Definition map_procs (T : dom * list stmt -> dom * list stmt) (D : design) : design :=
+  {| g_tab := g_tab D; g_doms := g_doms D; g_procs := map T (g_procs D); g_nsig := g_nsig D |}.
+
+(* ================= memories in the engine (sim/pysim.py _PyMemoryState, sim/_pyrtl.py memory part of
+   _FragmentCompiler): one process per (MemoryInstance, domain) ================= *)
+Definition rows := list Z.
+Definition wqueue := list (Z * Z).            (* write_queue: dict addr -> value in insertion order *)
+Fixpoint qget (q : wqueue) (a : Z) : option Z :=
+  match q with [] => None | av :: r => if fst av =? a then Some (snd av) else qget r a end.
+Fixpoint qset (q : wqueue) (a v : Z) : wqueue :=
+  match q with [] => [(a, v)] | av :: r => if fst av =? a then (fst av, v) :: r else av :: qset r a v end.
+Definition in_depth (depth a : Z) : bool := (0 <=? a) && (a <? depth).
+(* read(addr): committed data; 0 beyond the depth *)
+Definition mem_read (depth : Z) (rw : rows) (a : Z) : Z := if in_depth depth a then nth (Z.to_nat a) rw 0 else 0.
+Definition sign_fix (s : shape) (v : Z) : Z :=
+  if sgn s then (if Z.testbit v (width s - 1) then Z.lor v (Z.shiftl (-1) (width s))
+                 else Z.land v (Z.shiftl 1 (width s) - 1))
+  else v.
+(* write(addr, value, mask) *)
+Definition mem_write (s : shape) (depth : Z) (rw : rows) (q : wqueue) (a value msk : Z) : wqueue :=
+  if in_depth depth a then
+    let old := match qget q a with Some v => v | None => nth (Z.to_nat a) rw 0 end in
+    qset q a (sign_fix s (Z.lor (Z.land value msk) (Z.land old (Z.lnot msk))))
+  else q.
+Fixpoint set_row (rw : rows) (n : nat) (v : Z) : rows :=
+  match rw with
+  | [] => []
+  | x :: r => match n with O => v :: r | S k => x :: set_row r k v end
+  end.
+Definition mem_commit (rw : rows) (q : wqueue) : rows :=
+  fold_left (fun rw av => set_row rw (Z.to_nat (fst av)) (snd av)) q rw.
+
+(* Cat(bit.replicate(granularity) for bit in port._en), bits k .. of the raw enable *)
+Fixpoint en_cat (raw g : Z) (n : nat) (k : Z) : Z :=
+  match n with
+  | O => 0
+  | S n' => Z.lor (if Z.testbit raw k then Z.shiftl (Z.shiftl 1 g - 1) (k * g) else 0) (en_cat raw g n' (k + 1))
+  end.
+Definition wen_value (curr : env) (w : Z) (en : expr) : Z :=
+  let enw := ewidth en in
+  let g := if w =? 0 then 1 else w / enw in
+  rmask w (en_cat (eval_rtl curr en) g (Z.to_nat enw) 0).
+
+Definition mem_masks (ports : list rport) : maskmap :=
+  fold_left (fun acc p => lhs_mask (rp_data p) (-1) acc) ports (fun _ => 0).
+
+Definition wvals := (Z * Z * Z)%type.         (* write_addr, write_data, write_en *)
+Definition port_wvals (curr : env) (d : dom) (p : wport) : option wvals :=
+  if Nat.eqb (wp_dom p) d
+  then Some (rmask (ewidth (wp_addr p)) (eval_rtl curr (wp_addr p)),
+             rmask (ewidth (wp_data p)) (eval_rtl curr (wp_data p)),
+             wen_value curr (ewidth (wp_data p)) (wp_en p))
+  else None.
+Definition patch (a : Z) (wv : list (option wvals)) (dt : Z) (idx : nat) : Z :=
+  match nth idx wv None with
+  | Some t => if a =? fst (fst t) then Z.lor (Z.land dt (Z.lnot (snd t))) (Z.land (snd (fst t)) (snd t)) else dt
+  | None => dt
+  end.
+(* one sync read port: `if 1 & en:` read the committed row, patch for transparent write ports, assign the data signal *)
+Definition read_port_sync (m : meminst) (curr : env) (rw : rows) (wv : list (option wvals)) (nx : env) (p : rport) : env :=
+  if Z.land 1 (eval_rtl curr (rp_en p)) =? 0 then nx
+  else let a := rmask (ewidth (rp_addr p)) (eval_rtl curr (rp_addr p)) in
+       assign_rtl curr (rp_data p) (fold_left (patch a wv) (rp_transp p) (mem_read (mi_depth m) rw a)) nx.
+
+(* process of (memory, sync domain d): the write ports (queued), then the sync read ports.  The `if rst:` block
+   of the domain skips the read-data signals (memory read ports have no reset), and a MemoryInstance has no
+   statements, so the domain reset does nothing here *)
+Definition mem_sync (tab : sigtab) (m : meminst) (d : dom) (rw : rows) (sq : slots * wqueue)
+  : slots * wqueue :=
+  let st := fst sq in
+  let curr := s_curr st in
+  let rps := filter (fun p => Nat.eqb (rp_dom p) d) (mi_rports m) in
+  let mk := mem_masks rps in
+  let nx1 : env := s_next st in
+  let wv := map (port_wvals curr d) (mi_wports m) in
+  let q' := fold_left (fun q o => match o with
+                                  | Some t => mem_write (mi_shape m) (mi_depth m) rw q (fst (fst t)) (snd (fst t)) (snd t)
+                                  | None => q
+                                  end) wv (snd sq) in
+  let nx2 := fold_left (read_port_sync m curr rw wv) rps nx1 in
+  ({| s_curr := curr;
+      s_next := fun i => if mk i =? 0 then s_next st i
+                         else slot_update (s_next st i) (nx2 i) (update_mask (sd_shape (tab i)) (mk i)) |}, q').
+
+(* process of (memory, "comb"): the comb read ports *)
+Definition mem_comb (tab : sigtab) (rw : rows) (st : slots) (m : meminst) : slots :=
+  let curr := s_curr st in
+  let rps := filter (fun p => Nat.eqb (rp_dom p) 0) (mi_rports m) in
+  let mk := mem_masks rps in
+  let nx0 : env := fun i => if mk i =? 0 then s_next st i else sd_init (tab i) in
+  let nx1 := fold_left (fun nx p =>
+               assign_rtl curr (rp_data p)
+                 (mem_read (mi_depth m) rw (rmask (ewidth (rp_addr p)) (eval_rtl curr (rp_addr p)))) nx) rps nx0 in
+  {| s_curr := curr;
+     s_next := fun i => if mk i =? 0 then s_next st i
+                        else slot_update (s_next st i) (nx1 i) (update_mask (sd_shape (tab i)) (mk i)) |}.
+
+Definition mem_doms (m : meminst) : list dom :=
+  filter (fun d => negb (Nat.eqb d 0)) (uniq [] (map wp_dom (mi_wports m) ++ map rp_dom (mi_rports m))).
+
+Definition mem_delta2 (D : design) (cur nx : env) (m : meminst) (rw : rows) (st : slots) : slots * wqueue :=
+  fold_left (fun sq d => if fired (g_doms D d) cur nx
+                         then mem_sync (g_tab D) m d rw sq else sq)
+            (mem_doms m) (mem_comb (g_tab D) rw st m, []).
+
+Fixpoint mems_delta2 (D : design) (cur nx : env) (ms : list meminst) (rws : list rows) (st : slots)
+  : slots * list rows :=
+  match ms, rws with
+  | m :: ms', rw :: rws' =>
+      let sq := mem_delta2 D cur nx m rw st in
+      let sr := mems_delta2 D cur nx ms' rws' (fst sq) in
+      (fst sr, mem_commit rw (snd sq) :: snd sr)
+  | _, _ => (st, [])
+  end.
+
+Fixpoint msettle (fuel : nat) (D : design) (ms : list meminst) (rws : list rows) (cur : env) : env :=
+  match fuel with
+  | O => cur
+  | S k =>
+      let st := eval_phase (g_tab D) (g_doms D) (fun _ => false) (g_procs D) {| s_curr := cur; s_next := cur |} in
+      let st' := fold_left (fun st mr => mem_comb (g_tab D) (snd mr) st (fst mr)) (combine ms rws) st in
+      let nx := freeze (g_nsig D) (s_next st') in
+      if differs (g_nsig D) cur nx then msettle k D ms rws nx else nx
+  end.
+
+Definition mstate := (env * list rows)%type.
+Definition mstep (D : design) (ms : list meminst) (e : event) (s : mstate) : mstate :=
+  let cur := fst s in
+  let nx := freeze (g_nsig D) (apply_writes e cur) in
+  let st2 := fold_left (fun st p =>
+               if Nat.eqb (fst p) 0 then comb_process (g_tab D) (snd p) st
+               else sync_code (g_tab D) (snd p) (g_doms D (fst p)) cur nx st) (g_procs D) {| s_curr := nx; s_next := nx |} in
+  let sr := mems_delta2 D cur nx ms (snd s) st2 in
+  (msettle (fuel_of D) D ms (snd sr) (freeze (g_nsig D) (s_next (fst sr))), snd sr).
+
+(* MemoryData.Init: given elements (normalised), the other rows 0 *)
+Definition init_rows (m : meminst) : rows :=
+  map (fun k => nth k (mi_init m) 0) (seq 0 (Z.to_nat (mi_depth m))).
+Definition minit (D : design) (ms : list meminst) : mstate :=
+  let rws := map init_rows ms in
+  (msettle (fuel_of D) D ms rws (freeze (g_nsig D) (fun i => sd_init (g_tab D i))), rws).
+Fixpoint mrun (D : design) (ms : list meminst) (evs : list event) (s : mstate) : list mstate :=
+  match evs with
+  | [] => []
+  | e :: r => let s' := mstep D ms e s in s' :: mrun D ms r s'
+  end.
